@@ -43,7 +43,7 @@ META = {
         'gen_failed_read_then_resumed', 'gen_integer_overflow_planned', 'ref_read:overflow', 'ref_resume:next',
         'gen_decoy_data_in_remark', 'gen_decoy_data_in_string', 'gen_line_zero', 'gen_indented_lines',
         'gen_read_with_dependent_subscripts', 'gen_nop_before_data_scan',
-        'gen_restore_to_missing_line', 'gen_direct_restore_to_missing_line', 'gen_direct_reads_after_the_run', 'ref_restore:missing-line']},
+        'gen_numeric_item_with_plus_sign', 'gen_restore_to_missing_line', 'gen_direct_restore_to_missing_line', 'gen_direct_reads_after_the_run', 'ref_restore:missing-line']},
     'timeout': {'quick': 600, 'thorough': 7200},
 }
 
@@ -97,6 +97,9 @@ DIRECTED = [
      b' 100  2.5  31 -.25  7  15  15  42 \r\n'),
     ('items:numeric-text-into-string', ['10 DATA 1E2, 2.50 ,&H1F', '20 READ A$,B$,C$:PRINT "[";A$;"][";B$;"][";C$;"]"'],
      b'[1E2][2.50][&H1F]\r\n'),
+    ('items:explicit-sign-and-point-spellings', ['10 DATA +42,+.5,+1E2,+2.5E+1,5.,+7%,+0,+3#,-.5,+1.5D1', '20 FOR I%=1 TO 10:READ X:PRINT X;:NEXT:PRINT',
+                                                 '30 RESTORE:READ A$,B$:PRINT "[";A$;"][";B$;"]"'],
+     b' 42  .5  100  25  5  7  0  3 -.5  15 \r\n[+42][+.5]\r\n'),
     ('targets:types-and-array-elements', ['10 DATA 3,4.75,5,six', '20 DIM A%(3),T$(3)', '30 READ A%(2),B%,D#,T$(1):PRINT A%(2);B%;D#;T$(1)'],
      b' 3  5  5 six\r\n'),
     ('unclosed-string:data-item-ends-at-end-of-line',
